@@ -7,26 +7,35 @@
 (* that the binding layer instantiates (their rendered names come from the Formula spec).     *)
 EXTENDS Integers, Sequences, FiniteSets, TLC, Json
 
-CONSTANTS NSpecies, Coefs, MaxReac, MaxProd, Kinds
+CONSTANTS NSpecies, Coefs, MaxReac, MaxProd, Kinds,
+          MaxIReac, MaxIProd   \* inactive (parenthesised) species per side; stored apart from the active ones
 
-VARIABLES reac, prod, kind, phase
-vars == <<reac, prod, kind, phase>>
+VARIABLES reac, prod, kind, phase, ireac, iprod
+vars == <<reac, prod, kind, phase, ireac, iprod>>
 
-Init == reac = <<>> /\ prod = <<>> /\ kind = "none" /\ phase = "reac"
+Init == reac = <<>> /\ prod = <<>> /\ kind = "none" /\ phase = "reac" /\ ireac = <<>> /\ iprod = <<>>
 
 Used(side) == { side[i][1] : i \in 1..Len(side) }
 
 AddReac(s, c) == /\ phase = "reac" /\ Len(reac) < MaxReac /\ s \notin Used(reac)
-                 /\ reac' = Append(reac, <<s, c>>) /\ UNCHANGED <<prod, kind, phase>>
-Arrow(k) == /\ phase = "reac" /\ reac # <<>> /\ kind' = k /\ phase' = "prod" /\ UNCHANGED <<reac, prod>>
+                 /\ reac' = Append(reac, <<s, c>>) /\ UNCHANGED <<prod, kind, phase, ireac, iprod>>
+Arrow(k) == /\ phase = "reac" /\ reac # <<>> /\ kind' = k /\ phase' = "prod" /\ UNCHANGED <<reac, prod, ireac, iprod>>
 AddProd(s, c) == /\ phase = "prod" /\ Len(prod) < MaxProd /\ s \notin Used(prod)
-                 /\ prod' = Append(prod, <<s, c>>) /\ UNCHANGED <<reac, kind, phase>>
-Finish == /\ phase = "prod" /\ prod # <<>> /\ phase' = "done" /\ UNCHANGED <<reac, prod, kind>>
+                 /\ prod' = Append(prod, <<s, c>>) /\ UNCHANGED <<reac, kind, phase, ireac, iprod>>
+Finish == /\ phase = "prod" /\ prod # <<>> /\ phase' = "done" /\ UNCHANGED <<reac, prod, kind, ireac, iprod>>
+(* inactive species are stored in their own ordered maps (one per side); a species may be inactive on a side *)
+(* where it is also active                                                                                  *)
+AddIReac(s, c) == /\ phase = "reac" /\ Len(ireac) < MaxIReac /\ s \notin Used(ireac)
+                  /\ ireac' = Append(ireac, <<s, c>>) /\ UNCHANGED <<reac, prod, kind, phase, iprod>>
+AddIProd(s, c) == /\ phase = "prod" /\ Len(iprod) < MaxIProd /\ s \notin Used(iprod)
+                  /\ iprod' = Append(iprod, <<s, c>>) /\ UNCHANGED <<reac, prod, kind, phase, ireac>>
 
 GenAddReac == \E s \in 1..NSpecies, c \in Coefs : AddReac(s, c)
 GenArrow == \E k \in Kinds : Arrow(k)
 GenAddProd == \E s \in 1..NSpecies, c \in Coefs : AddProd(s, c)
-Next == GenAddReac \/ GenArrow \/ GenAddProd \/ Finish
+GenAddIReac == \E s \in 1..NSpecies, c \in Coefs : AddIReac(s, c)
+GenAddIProd == \E s \in 1..NSpecies, c \in Coefs : AddIProd(s, c)
+Next == GenAddReac \/ GenArrow \/ GenAddProd \/ Finish \/ GenAddIReac \/ GenAddIProd
 
 (* presentation tokens *)
 \* a coefficient is a positive rational <<n, d>> (1/2, 3/2 ... occur in unchecked reactions); it is shown unless it is 1
@@ -36,26 +45,35 @@ RECURSIVE SideToks(_)
 SideToks(side) == IF side = <<>> THEN <<>>
                   ELSE IF Len(side) = 1 THEN TermToks(side[1])
                   ELSE TermToks(Head(side)) \o <<[r |-> "Plus"]>> \o SideToks(Tail(side))
-Shown == SideToks(reac) \o <<[r |-> "Arrow", k |-> kind]>> \o SideToks(prod)
+\* the inactive species of a side follow its active ones as one parenthesised group: " + ( 2 X + Y)"
+InactToks(side) == IF side = <<>> THEN <<>> ELSE <<[r |-> "Plus"], [r |-> "Open"]>> \o SideToks(side) \o <<[r |-> "Close"]>>
+Shown == SideToks(reac) \o InactToks(ireac) \o <<[r |-> "Arrow", k |-> kind]>> \o SideToks(prod) \o InactToks(iprod)
+AllTerms == reac \o ireac \o prod \o iprod
 
 (* invariants: every stored term is shown exactly once, in order; a coefficient token never shows 1 *)
 NamesInOrder ==
     phase = "done" =>
         LET names == SelectSeq(Shown, LAMBDA t : t.r = "Name")
-        IN  names = [i \in 1..(Len(reac) + Len(prod)) |->
-                        [r |-> "Name", s |-> IF i <= Len(reac) THEN reac[i][1] ELSE prod[i - Len(reac)][1]]]
+        IN  names = [i \in 1..Len(AllTerms) |-> [r |-> "Name", s |-> AllTerms[i][1]]]
 NoUnitCoef == \A i \in 1..Len(Shown) : Shown[i].r = "Coef" => Shown[i].n # Shown[i].d
 \* every stored coefficient other than 1 is shown, also those below 1
 AllNonUnitShown == phase = "done" =>
     Cardinality({ i \in 1..Len(Shown) : Shown[i].r = "Coef" }) =
-    Cardinality({ i \in 1..Len(reac) : reac[i][2][1] # reac[i][2][2] }) + Cardinality({ i \in 1..Len(prod) : prod[i][2][1] # prod[i][2][2] })
+    Cardinality({ i \in 1..Len(AllTerms) : AllTerms[i][2][1] # AllTerms[i][2][2] })
+\* each side's inactive species stay on their side, inside one group that closes before the arrow / the end
+ArrowPos == CHOOSE i \in 1..Len(Shown) : Shown[i].r = "Arrow"
+InactiveStayOnTheirSide == phase = "done" =>
+    /\ Cardinality({ i \in 1..(ArrowPos - 1) : Shown[i].r = "Open" }) = (IF ireac = <<>> THEN 0 ELSE 1)
+    /\ Cardinality({ i \in (ArrowPos + 1)..Len(Shown) : Shown[i].r = "Open" }) = (IF iprod = <<>> THEN 0 ELSE 1)
+    /\ (ireac # <<>> => Shown[ArrowPos - 1].r = "Close") /\ (iprod # <<>> => Shown[Len(Shown)].r = "Close")
 OneArrow == phase = "done" => Cardinality({ i \in 1..Len(Shown) : Shown[i].r = "Arrow" }) = 1
 
 Done == phase = "done"
-CaseRec == [ in |-> [reac |-> reac, prod |-> prod, kind |-> kind],
+CaseRec == [ in |-> [reac |-> reac, prod |-> prod, kind |-> kind, ireac |-> ireac, iprod |-> iprod],
              exp |-> [shown |-> Shown],
-             cls |-> kind \o "-" \o ToString(Len(reac)) \o ToString(Len(prod)) ]
+             cls |-> kind \o "-" \o ToString(Len(reac)) \o ToString(Len(prod)) \o "-i" \o ToString(Len(ireac)) \o ToString(Len(iprod)) ]
 CoefsQ == { <<1, 1>>, <<2, 1>>, <<10, 1>>, <<1, 2>>, <<3, 2>> }
+CoefsI == { <<1, 1>>, <<2, 1>> }
 CoefsT == { <<1, 1>>, <<2, 1>>, <<10, 1>>, <<1, 2>> }
 Emit == Done => PrintT(<<"CASE", ToJson(CaseRec)>>)
 =============================================================================
